@@ -101,10 +101,14 @@ class C14:
 
     def cases(self, tier, seed):
         for f in cat.forests(cat.ALL, 1):
+            if 'um_remember' in cat.names_in(f):
+                continue        # prints a word a second time as generated text: its location is judged by C04
             yield ['doc', f, catcheck.langs_for(f)[0]]
             yield ['doc', f, catcheck.langs_for(f)[0], 'one']
             yield ['doc', f, catcheck.langs_for(f)[0], 'pairs']
         for f in cat.forests(cat.CORE if tier == 'quick' else cat.ALL, 2):
+            if 'um_remember' in cat.names_in(f):
+                continue
             yield ['doc', f, catcheck.langs_for(f)[0]]
             if tier != 'quick':
                 yield ['doc', f, catcheck.langs_for(f)[0], 'pairs']
@@ -198,7 +202,8 @@ class C14:
                 ans.seen = 0
             if ml:
                 other = 'ru-RU' if opts['lang'] != 'ru-RU' else 'en-GB'
-                sess = shell.Session(['--language', other] + argv[2:] + ['d.tex'], ans, cwd=d)
+                srv_argv = ['--language', other] + argv[2:] + ['--lt-options', '~--disable LTO --disablecategories LTC', 'd.tex']
+                sess = shell.Session(srv_argv, ans, cwd=d)
             sess.calls = []
             requ = {'language': [opts['lang']], 'text': [tex]}
             if ml:
@@ -209,6 +214,21 @@ class C14:
                 if v:
                     viol.append({'clause': 'server: each part is submitted under its own language code (the request names the main language)',
                                  'sig': 'C14:server:calls:' + v[0], 'detail': dict(det, calls=[(c, t) for c, t in sess.calls], parts=parts, problem=v[1])})
+            if ml and val is not None:
+                # a second request to the same server, without rule fields: the configured options apply again,
+                # exactly as for the same request sent to a fresh server
+                requ2 = {'language': [opts['lang']], 'text': [tex]}
+                sess.calls = []
+                val2 = sess.request(requ2)[0]
+                fresh = shell.Session(srv_argv, ans, cwd=d)
+                val3 = fresh.request(requ2)[0]
+                if [c for c, t in sess.calls] != [c for c, t in fresh.calls] or val2 != val3:
+                    viol.append({'clause': 'server: every request is submitted with the configured rule options (no effect of earlier requests)',
+                                 'sig': 'C14:server:second-request', 'detail': dict(det, after_first=[c for c, t in sess.calls],
+                                                                                   fresh_server=[c for c, t in fresh.calls])})
+                elif not any('LTO' in c for c, t in fresh.calls):
+                    viol.append({'clause': 'server: options from --lt-options reach the proofreader', 'sig': 'C14:server:lt-options',
+                                 'detail': dict(det, fresh_server=[c for c, t in fresh.calls])})
             if val is None:
                 viol.append({'clause': 'server answers', 'sig': 'C14:server:no-answer', 'detail': dict(det, stderr=err[-300:], exc=exc)})
             else:
@@ -261,6 +281,21 @@ class C14:
             g2 = [(g.get('fromy'), g.get('fromx'), g.get('toy'), g.get('tox'), g.get('msg')) for g in got]
             if g2 != exp2:
                 return ('XML fromy/fromx/toy/tox of each flagged word (bytes for xml-b), ordered', 'location', {'got': g2, 'expected': exp2})
+            for g, x in zip(got, want):
+                # the excerpt: context / contextoffset / errorlength select the flagged word (in bytes for xml-b)
+                if '-' in x['word'] or '+' in x['word'] or 'context' not in g:
+                    continue
+                try:
+                    co, el = int(g['contextoffset']), int(g['errorlength'])
+                    if mode == 'xml-b':
+                        marked = g['context'].encode('utf-8')[co:co + el].decode('utf-8', 'replace')
+                    else:
+                        marked = g['context'][co:co + el]
+                except (KeyError, ValueError):
+                    marked = None
+                if marked != x['word']:
+                    return ('the excerpt of an XML message marks the flagged word (contextoffset / errorlength)', 'excerpt',
+                            {'entry': g, 'word': x['word'], 'marked': marked})
         elif mode == 'html':
             p = reports.parse_html(out)
             hl = [(reports.html_text(h['title']), reports.html_text(h['text'])) for h in p.highlights if h['title']]
